@@ -3,6 +3,7 @@ package main
 import (
 	"bytes"
 	stdsha "crypto/sha256"
+	"encoding/binary"
 	"encoding/hex"
 	"fmt"
 	"github.com/storacha/go-ucanto/core/dag/blockstore"
@@ -24,6 +25,8 @@ func init() {
 	execs["cartrunc"] = execCarTrunc
 	execs["carflip"] = execCarFlip
 	execs["cardec"] = execCarDec
+	execs["cardecx"] = execCarDec // inputs that may make a defective reader allocate without bound: run in a worker process
+	isolatedOps["cardecx"] = true
 }
 
 type rawBlock struct {
@@ -99,6 +102,19 @@ func decodeCanon(input []byte) (hdrErr bool, rootsStr string, blocksStr string, 
 						oracle = "fail:the block reader built from the archive answers a delivered link with another block"
 					}
 				}
+			}
+		}
+	}
+	if iterErr && oracle == "" {
+		// the iteration ended with an error: whoever builds a block reader or store from it is told
+		if _, again, err := car.Decode(bytes.NewReader(input)); err == nil {
+			if _, err := blockstore.NewBlockReader(blockstore.WithBlocksIterator(again)); err == nil {
+				oracle = "fail:the archive's block iteration ends with an error but NewBlockReader built from it reports none"
+			}
+		}
+		if _, again, err := car.Decode(bytes.NewReader(input)); err == nil {
+			if _, err := blockstore.NewBlockStore(blockstore.WithBlocksIterator(again)); err == nil {
+				oracle = "fail:the archive's block iteration ends with an error but NewBlockStore built from it reports none"
 			}
 		}
 	}
@@ -288,6 +304,19 @@ func genC12(cfg Config, emit Emit) error {
 			in = append(append([]byte{}, a...), byte(cfg.Rng.Intn(256)), byte(cfg.Rng.Intn(256)))
 		}
 		emit("cardec", []string{hexTok(in)}, "arbitrary", len(in) > 0)
+	}
+	// section (and header) lengths at and beyond every bound: the allocation limit, 2^31, 2^32, 2^62, 2^63, 2^64-1
+	lens := []uint64{32 << 20, 32<<20 + 1, 1 << 31, 1<<32 - 1, 1 << 32, 1 << 40, 1 << 62, 1<<62 + 1, 1<<63 - 1, 1 << 63, 1<<64 - 1}
+	for i, l := range lens {
+		roots, blocks := genArchive(cfg.Rng, 2)
+		a, err := encodeArchive(roots, blocks)
+		if err != nil {
+			return err
+		}
+		lv := binary.AppendUvarint(nil, l)
+		tail := [][]byte{{}, {0x01}, {0x01, 0x71, 0x12, 0x20}, bytes.Repeat([]byte{7}, 40)}[i%4]
+		emit("cardecx", []string{hexTok(append(append(append([]byte{}, a...), lv...), tail...))}, "huge-section", true)
+		emit("cardecx", []string{hexTok(append(append([]byte{}, lv...), tail...))}, "huge-header", true)
 	}
 	return nil
 }
